@@ -110,6 +110,12 @@ Proof.
   exact (scan_time socks_proto t_dial t_data cancel ip port s H).
 Qed.
 
+(* the hypothesis t_dial <> 0 of C09_time is necessary: with `--timeout 0` the connect phase has no
+   deadline at all, so no bound B in terms of the configured timeouts holds for every network *)
+Theorem C09_time_zero_dial_unbounded : forall t_data ip port B,
+  exists s, B < r_fin (scan socks_proto 0 t_data None ip port s).
+Proof. intros. apply scan_zero_dial_unbounded. Qed.
+
 (* the fuelled ReadFull loop never runs out of fuel, whatever the timeouts *)
 Theorem C09_total : forall t_dial t_data cancel ip port s,
   r_out (scan socks_proto t_dial t_data cancel ip port s) <> OutOfFuel.
@@ -218,6 +224,7 @@ Print Assumptions C09_all_replies.
 Print Assumptions C09_short_reply.
 Print Assumptions C09_nothing_iff.
 Print Assumptions C09_time.
+Print Assumptions C09_time_zero_dial_unbounded.
 Print Assumptions C09_total.
 Print Assumptions C09_cancel_prompt.
 Print Assumptions C09_cancel_sound.
